@@ -26,8 +26,14 @@ package batchresource
 //     only when at least one container declares one; it is serialised with the same
 //     apiext.SetExtendedResourceSpec the webhook calls. Alternatively it is absent altogether
 //     (feature gate DisableExtendedResourceSpec / webhook not installed);
-//  5. one plugin instance per case, configured once (UpdateCPUNormalizationRatio ignores later changes
-//     below its epsilon, which is outside the statement).
+//  5. one plugin instance per case. Its rule is fed either at most one node-metadata state and one
+//     NodeSLO state (60 %), or a history of 2-4 node-metadata states and 1-3 NodeSLO states in any
+//     interleaving (40 %), as a koordlet sees them change over time; informer states of one object arrive
+//     in order. rule.go documents that UpdateCPUNormalizationRatio ignores a new ratio closer than
+//     ratioDiffEpsilon = 0.01 to the cached one, so successive ratios are exact repeats, involve an absent
+//     annotation, or differ by >= 0.015; sub-epsilon drifts are not generated. The oracle uses only the
+//     LAST state of each kind; in half of the histories the hooks also run after every update and must
+//     match the state configured at that moment.
 //
 // The oracle never calls sysutil.MilliCPUToShares / MilliCPUToQuota or the code's aggregation: the
 // "standard conversion" is written out below from the kernel / kubelet constants, and it is applied to
@@ -384,50 +390,102 @@ type c14Cfg struct {
 	ratio    float64 // the float64 that string denotes, -1 = none
 	slo      string
 	cfsOn    bool
+	metaSeen bool // bookkeeping of the update loop: a node-metadata state was parsed already
 }
 
 var c14Ratios = []string{"", "0.5", "1", "1.0001", "1.5", "2", "4"}
 
-func c14Configure(c *kit.Case, p *plugin, cfg c14Cfg, metaFirst bool) {
-	meta := func() {
-		if cfg.ratioStr == "" && cfg.slo == "rule-never-set" {
-			return // node metadata not seen yet
-		}
-		node := &corev1.Node{ObjectMeta: metav1.ObjectMeta{Name: "n0", Annotations: map[string]string{}}}
-		if cfg.ratioStr != "" {
-			node.Annotations[apiext.AnnotationCPUNormalizationRatio] = cfg.ratioStr
-		}
-		if _, err := p.parseRuleForNodeMeta(node); err != nil {
-			c.Harness("parseRuleForNodeMeta(%q): %v", cfg.ratioStr, err)
-		}
+// A rule update: one node-metadata state (the ratio annotation present with a value, or absent) fed to the
+// real parseRuleForNodeMeta, or one NodeSLO state fed to the real parseRuleForNodeSLO.
+type c14Step struct {
+	meta bool
+	val  string // meta: annotation value, "" = annotation absent; slo: mode name
+}
+
+func (st c14Step) String() string {
+	if st.meta {
+		return fmt.Sprintf("node-meta(ratio=%q)", st.val)
 	}
-	slo := func() {
-		var spec *slov1alpha1.NodeSLOSpec
-		switch cfg.slo {
-		case "rule-never-set":
-			return
-		case "default-spec":
-			spec = &slov1alpha1.NodeSLOSpec{}
-		case "suppress-on/cpuset":
-			spec = &slov1alpha1.NodeSLOSpec{ResourceUsedThresholdWithBE: &slov1alpha1.ResourceThresholdStrategy{Enable: ptr.To(true), CPUSuppressPolicy: slov1alpha1.CPUSetPolicy}}
-		case "suppress-on/cfsQuota":
-			spec = &slov1alpha1.NodeSLOSpec{ResourceUsedThresholdWithBE: &slov1alpha1.ResourceThresholdStrategy{Enable: ptr.To(true), CPUSuppressPolicy: slov1alpha1.CPUCfsQuotaPolicy}}
-		case "suppress-off/cfsQuota":
-			spec = &slov1alpha1.NodeSLOSpec{ResourceUsedThresholdWithBE: &slov1alpha1.ResourceThresholdStrategy{Enable: ptr.To(false), CPUSuppressPolicy: slov1alpha1.CPUCfsQuotaPolicy}}
-		default:
-			c.Harness("unknown slo mode %q", cfg.slo)
-		}
-		if _, err := p.parseRuleForNodeSLO(spec); err != nil {
-			c.Harness("parseRuleForNodeSLO(%s): %v", cfg.slo, err)
-		}
+	return "NodeSLO(" + st.val + ")"
+}
+
+func c14ParseRatio(c *kit.Case, s string) float64 {
+	if s == "" {
+		return -1
 	}
-	if metaFirst {
-		meta()
-		slo()
-	} else {
-		slo()
-		meta()
+	v, err := strconv.ParseFloat(s, 64)
+	if err != nil {
+		c.Harness("ratio %q: %v", s, err)
 	}
+	return v
+}
+
+// rule.go: "If CPU Suppress Policy CPUCfsQuotaPolicy is enabled for batch pods, batch pods' cfs_quota
+// should be unset" - the only way the switch goes off.
+func c14CFSOn(sloMode string) bool { return sloMode != "suppress-on/cfsQuota" }
+
+func c14Apply(c *kit.Case, p *plugin, st c14Step) {
+	if st.meta {
+		node := &corev1.Node{ObjectMeta: metav1.ObjectMeta{Name: "n0", Annotations: map[string]string{"other": "x"}}}
+		if st.val != "" {
+			node.Annotations[apiext.AnnotationCPUNormalizationRatio] = st.val
+		}
+		upd, err := p.parseRuleForNodeMeta(node)
+		if err != nil {
+			c.Harness("parseRuleForNodeMeta(%q): %v", st.val, err)
+		}
+		c.Op("update %s -> updated=%v", st, upd)
+		return
+	}
+	var spec *slov1alpha1.NodeSLOSpec
+	switch st.val {
+	case "default-spec":
+		spec = &slov1alpha1.NodeSLOSpec{}
+	case "suppress-on/cpuset":
+		spec = &slov1alpha1.NodeSLOSpec{ResourceUsedThresholdWithBE: &slov1alpha1.ResourceThresholdStrategy{Enable: ptr.To(true), CPUSuppressPolicy: slov1alpha1.CPUSetPolicy}}
+	case "suppress-on/cfsQuota":
+		spec = &slov1alpha1.NodeSLOSpec{ResourceUsedThresholdWithBE: &slov1alpha1.ResourceThresholdStrategy{Enable: ptr.To(true), CPUSuppressPolicy: slov1alpha1.CPUCfsQuotaPolicy}}
+	case "suppress-off/cfsQuota":
+		spec = &slov1alpha1.NodeSLOSpec{ResourceUsedThresholdWithBE: &slov1alpha1.ResourceThresholdStrategy{Enable: ptr.To(false), CPUSuppressPolicy: slov1alpha1.CPUCfsQuotaPolicy}}
+	default:
+		c.Harness("unknown slo mode %q", st.val)
+	}
+	upd, err := p.parseRuleForNodeSLO(spec)
+	if err != nil {
+		c.Harness("parseRuleForNodeSLO(%s): %v", st.val, err)
+	}
+	c.Op("update %s -> updated=%v", st, upd)
+}
+
+var (
+	c14SLOModes = []string{"default-spec", "suppress-on/cpuset", "suppress-on/cpuset", "suppress-on/cfsQuota", "suppress-on/cfsQuota", "suppress-off/cfsQuota"}
+	// earlier states of a ratio history (the last state comes from c14Ratios)
+	c14HistRatios = []string{"", "", "1.00", "1", "0.50", "0.99", "1.02", "1.25", "1.5", "2", "2.00", "3.00", "4", "1.0001"}
+)
+
+// c14RatioChangeOK: rule.go documents that UpdateCPUNormalizationRatio ignores a new ratio closer than
+// ratioDiffEpsilon = 0.01 to the cached one (koord-manager writes the annotation with two decimals).
+// Successive node states are therefore either an exact repeat, or involve an absent annotation (-1), or
+// differ by clearly more than the epsilon; sub-epsilon drifts are not generated (outside the statement).
+func c14RatioChangeOK(a, b float64) bool {
+	if a == b || a < 0 || b < 0 {
+		return true
+	}
+	d := a - b
+	if d < 0 {
+		d = -d
+	}
+	return d >= 0.015
+}
+
+func c14RatioClass(v float64) string {
+	switch {
+	case v < 0:
+		return "absent"
+	case v <= 1:
+		return "le1"
+	}
+	return "gt1"
 }
 
 // ---------------------------------------------------------------------------------------------
@@ -567,7 +625,7 @@ var c14Transports = []string{"proxy", "nri", "reconciler"}
 
 func TestVerifC14Hook(t *testing.T) {
 	kit.Run(t, kit.Config{Property: "C14", Unit: "hook", Quick: 5000, Thorough: 100000,
-		Rule: "one generated pod per case: 1-5 containers, batch-cpu/batch-memory request and limit each from {missing, 0, 1, 9, 10, 999, 1000, 1001, 10^6, 2^40} plus neighbours and random 1..4096 (request <= limit), some containers declaring nothing; marked BE by the QoS label, by the same key as an annotation only, or not BE (LS/LSR/LSE/SYSTEM/no label); spec annotation as the webhook writes it or absent; fresh plugin configured through parseRuleForNodeSLO (cfs switch) and parseRuleForNodeMeta (ratio none/0.5/1/1.0001/1.5/2/4); SetPodResources, SetContainerResources and the six single-value parts run on contexts built by FromProxy, FromNri and FromReconciler. distinct = (container count, sorted per-container unlimited pattern, clamp hits, ratio class, cfs switch, marking class, spec mode); non-trivial = BE-labelled pod with a visible spec and >= 2 containers in which a clamp, a ratio rounding or an unlimited propagation was exercised; evaluations = contexts checked"},
+		Rule: "one generated pod per case: 1-5 containers, batch-cpu/batch-memory request and limit each from {missing, 0, 1, 9, 10, 999, 1000, 1001, 10^6, 2^40} plus neighbours and random 1..4096 (request <= limit), some containers declaring nothing; marked BE by the QoS label, by the same key as an annotation only, or not BE (LS/LSR/LSE/SYSTEM/no label); spec annotation as the webhook writes it or absent; plugin configured through the real parseRuleForNodeSLO (cfs switch) and parseRuleForNodeMeta (ratio none/0.5/1/1.0001/1.5/2/4), in 40 % of the cases by a HISTORY of 2-4 node-metadata states (ratio absent / <=1 / >1 / changed, steps larger than the documented 0.01 update epsilon or exact repeats) and 1-3 NodeSLO states (switch flips) interleaved on the same instance, the oracle using only the last state of each, with the hooks also run and checked after every update in half of the histories; SetPodResources, SetContainerResources and the six single-value parts run on contexts built by FromProxy, FromNri and FromReconciler. distinct = (container count, sorted per-container unlimited pattern, clamp hits, ratio class, cfs switch, marking class, spec mode); non-trivial = BE-labelled pod with a visible spec and >= 2 containers in which a clamp, a ratio rounding or an unlimited propagation was exercised; evaluations = contexts checked"},
 		func(c *kit.Case) {
 			r := c.R
 			// ---- generate
@@ -588,21 +646,67 @@ func TestVerifC14Hook(t *testing.T) {
 			default:
 				p.marking = kit.Pick(r, []string{"label:LS", "label:LSR", "label:LSE", "label:SYSTEM", "none", "none-nil-labels"})
 			}
-			cfg := c14Cfg{ratioStr: kit.Pick(r, c14Ratios), ratio: -1, cfsOn: true,
-				slo: kit.Pick(r, []string{"rule-never-set", "default-spec", "suppress-on/cpuset", "suppress-on/cpuset", "suppress-on/cfsQuota", "suppress-on/cfsQuota", "suppress-off/cfsQuota"})}
-			if cfg.ratioStr != "" {
-				v, err := strconv.ParseFloat(cfg.ratioStr, 64)
-				if err != nil {
-					c.Harness("ratio %q: %v", cfg.ratioStr, err)
+			// ---- rule states. 60 %: one state of each kind at most (a koordlet that just started);
+			// 40 %: a history of 2-4 node-metadata states and 1-3 NodeSLO states on the same plugin
+			// instance, interleaved in any order. The oracle uses ONLY the last state of each kind
+			// ("when one above 1 is configured": configured now, not earlier).
+			cfg := c14Cfg{ratioStr: kit.Pick(r, c14Ratios), cfsOn: true}
+			cfg.ratio = c14ParseRatio(c, cfg.ratioStr)
+			history := r.Pct(40)
+			var metaSteps, sloSteps []c14Step
+			if !history {
+				cfg.slo = kit.Pick(r, append([]string{"rule-never-set"}, c14SLOModes...))
+				if cfg.slo != "rule-never-set" {
+					sloSteps = []c14Step{{false, cfg.slo}}
 				}
-				cfg.ratio = v
+				if cfg.ratioStr != "" || cfg.slo != "rule-never-set" { // else: node metadata not seen yet either
+					metaSteps = []c14Step{{true, cfg.ratioStr}}
+				}
+			} else {
+				cfg.slo = kit.Pick(r, c14SLOModes)
+				nm, ns := r.Range(2, 4), r.Range(1, 3)
+				prev := float64(-2) // nothing parsed yet
+				for i := 0; i < nm-1; i++ {
+					var cand string
+					for try := 0; ; try++ {
+						cand = kit.Pick(r, c14HistRatios)
+						if r.Pct(10) && i > 0 {
+							cand = metaSteps[i-1].val // a node update that does not change the ratio
+						}
+						v := c14ParseRatio(c, cand)
+						okPrev := prev == -2 || c14RatioChangeOK(prev, v)
+						okNext := i != nm-2 || c14RatioChangeOK(v, cfg.ratio)
+						if okPrev && okNext {
+							prev = v
+							break
+						}
+						if try > 200 {
+							c.Harness("cannot place a ratio between %v and %v", prev, cfg.ratio)
+						}
+					}
+					metaSteps = append(metaSteps, c14Step{true, cand})
+				}
+				metaSteps = append(metaSteps, c14Step{true, cfg.ratioStr})
+				for i := 0; i < ns-1; i++ {
+					sloSteps = append(sloSteps, c14Step{false, kit.Pick(r, c14SLOModes)})
+				}
+				sloSteps = append(sloSteps, c14Step{false, cfg.slo})
 			}
-			// rule.go: "If CPU Suppress Policy CPUCfsQuotaPolicy is enabled for batch pods, batch pods'
-			// cfs_quota should be unset" - the only way the switch goes off.
-			cfg.cfsOn = cfg.slo != "suppress-on/cfsQuota"
-			metaFirst := r.Bool()
+			cfg.cfsOn = c14CFSOn(cfg.slo)
+			// interleave, keeping the order within each kind
+			var steps []c14Step
+			for mi, si := 0, 0; mi < len(metaSteps) || si < len(sloSteps); {
+				if si >= len(sloSteps) || (mi < len(metaSteps) && r.Intn(len(metaSteps)-mi+len(sloSteps)-si) < len(metaSteps)-mi) {
+					steps = append(steps, metaSteps[mi])
+					mi++
+				} else {
+					steps = append(steps, sloSteps[si])
+					si++
+				}
+			}
+			hooksBetween := history && r.Pct(50)
+			betweenTransport := kit.Pick(r, c14Transports)
 			pl := newPlugin()
-			c14Configure(c, pl, cfg, metaFirst)
 
 			pod := c14BuildPod(c, p)
 			_, hasAnno := pod.Annotations[apiext.AnnotationExtendedResourceSpec]
@@ -611,7 +715,7 @@ func TestVerifC14Hook(t *testing.T) {
 				ctrStr[i] = ct.String()
 			}
 			c.Op("pod marking=%s containers=%v webhook=%v annotation=%q", p.marking, ctrStr, p.webhook, pod.Annotations[apiext.AnnotationExtendedResourceSpec])
-			c.Op("rule slo=%s ratio=%q (cfs quota on=%v) metaFirst=%v", cfg.slo, cfg.ratioStr, cfg.cfsOn, metaFirst)
+			c.Op("rule updates %v history=%v hooks-between=%v; last: slo=%s ratio=%q (cfs quota on=%v)", steps, history, hooksBetween, cfg.slo, cfg.ratioStr, cfg.cfsOn)
 
 			labelBE := p.marking == "label:BE"
 			annoOnly := p.marking == "annotation-only:BE"
@@ -629,273 +733,325 @@ func TestVerifC14Hook(t *testing.T) {
 				c.Count("cfs_switch_off", 1)
 			}
 
-			// ---- oracle values (independent of transport)
-			wantPod := c14WantPod(c, p.ctrs, cfg)
-			wantCtr := make([]c14Want, len(p.ctrs))
-			for i, ct := range p.ctrs {
-				wantCtr[i] = c14WantCtr(c, ct, cfg)
-			}
-
 			exercised := false
-			for _, tr := range c14Transports {
-				// which spec does this transport make visible to the hook?
-				visible := hasAnno && p.anyDeclared()
-				if tr == "reconciler" {
-					visible = p.anyDeclared() // the pod spec is preferred, the annotation is the fallback
-				}
-				// ---- run: combined hook functions
-				pctx := c14PodCtx(tr, pod)
-				if err := pl.SetPodResources(pctx); err != nil {
-					c.Count("hook_returned_error", 1) // not a verdict by itself: missing values are caught below
-					c.Op("%s SetPodResources error: %v", tr, err)
-				}
-				podGot := pctx.Response.Resources
-				podTouched := !reflect.DeepEqual(pctx.Response, protocol.PodResponse{})
-				c.Op("%s pod -> %s", tr, c14Res(podGot))
-				ctrGot := make([]protocol.Resources, len(p.ctrs))
-				ctrTouched := make([]bool, len(p.ctrs))
-				anyTouched := podTouched
+			var wantPod c14Want
+			var wantCtr []c14Want
+			// runCheck runs every hook through the given transports and checks the results against the rule
+			// state cfg (the state configured at this moment).
+			runCheck := func(cfg c14Cfg, transports []string, at string, final bool) {
+				// ---- oracle values (independent of transport)
+				wantPod = c14WantPod(c, p.ctrs, cfg)
+				wantCtr = make([]c14Want, len(p.ctrs))
 				for i, ct := range p.ctrs {
-					cctx := c14CtrCtx(tr, pod, ct.name)
-					if err := pl.SetContainerResources(cctx); err != nil {
-						c.Count("hook_returned_error", 1)
-						c.Op("%s SetContainerResources(%s) error: %v", tr, ct.name, err)
-					}
-					ctrGot[i] = cctx.Response.Resources
-					ctrTouched[i] = !reflect.DeepEqual(cctx.Response, protocol.ContainerResponse{})
-					anyTouched = anyTouched || ctrTouched[i]
-					c.Op("%s container %s -> %s", tr, ct.name, c14Res(ctrGot[i]))
+					wantCtr[i] = c14WantCtr(c, ct, cfg)
 				}
-				c.Evals(1 + len(p.ctrs))
-
-				// ---- run: the six single-value parts, each on a fresh context. The CRI/NRI hooks call the
-				// combined functions, the cgroup reconciler registers the parts one per cgroup file: both
-				// inject, so wherever the statement fixes the values (below) the parts must give the same.
-				partsDiffer := ""
-				{
-					var merged protocol.Resources
-					a, b, d := c14PodCtx(tr, pod), c14PodCtx(tr, pod), c14PodCtx(tr, pod)
-					e1, e2, e3 := pl.SetPodCPUShares(a), pl.SetPodCFSQuota(b), pl.SetPodMemoryLimit(d)
-					if e1 != nil || e2 != nil || e3 != nil {
-						c.Count("hook_returned_error", 1)
+				for _, tname := range transports {
+					tr := tname + at
+					// which spec does this transport make visible to the hook?
+					visible := hasAnno && p.anyDeclared()
+					if tname == "reconciler" {
+						visible = p.anyDeclared() // the pod spec is preferred, the annotation is the fallback
 					}
-					if a.Response.Resources.CFSQuota != nil || a.Response.Resources.MemoryLimit != nil || b.Response.Resources.CPUShares != nil ||
-						b.Response.Resources.MemoryLimit != nil || d.Response.Resources.CPUShares != nil || d.Response.Resources.CFSQuota != nil {
-						c.Count("parts_set_foreign_field", 1) // not in the statement
+					// ---- run: combined hook functions
+					pctx := c14PodCtx(tname, pod)
+					if err := pl.SetPodResources(pctx); err != nil {
+						c.Count("hook_returned_error", 1) // not a verdict by itself: missing values are caught below
+						c.Op("%s SetPodResources error: %v", tr, err)
 					}
-					merged.CPUShares, merged.CFSQuota, merged.MemoryLimit = a.Response.Resources.CPUShares, b.Response.Resources.CFSQuota, d.Response.Resources.MemoryLimit
-					c.Op("%s pod parts -> %s", tr, c14Res(merged))
-					if !reflect.DeepEqual(merged, podGot) {
-						partsDiffer = fmt.Sprintf("pod parts give {%s}, SetPodResources gives {%s}", c14Res(merged), c14Res(podGot))
-					}
+					podGot := pctx.Response.Resources
+					podTouched := !reflect.DeepEqual(pctx.Response, protocol.PodResponse{})
+					c.Op("%s pod -> %s", tr, c14Res(podGot))
+					ctrGot := make([]protocol.Resources, len(p.ctrs))
+					ctrTouched := make([]bool, len(p.ctrs))
+					anyTouched := podTouched
 					for i, ct := range p.ctrs {
-						var m protocol.Resources
-						a, b, d := c14CtrCtx(tr, pod, ct.name), c14CtrCtx(tr, pod, ct.name), c14CtrCtx(tr, pod, ct.name)
-						e1, e2, e3 := pl.SetContainerCPUShares(a), pl.SetContainerCFSQuota(b), pl.SetContainerMemoryLimit(d)
+						cctx := c14CtrCtx(tname, pod, ct.name)
+						if err := pl.SetContainerResources(cctx); err != nil {
+							c.Count("hook_returned_error", 1)
+							c.Op("%s SetContainerResources(%s) error: %v", tr, ct.name, err)
+						}
+						ctrGot[i] = cctx.Response.Resources
+						ctrTouched[i] = !reflect.DeepEqual(cctx.Response, protocol.ContainerResponse{})
+						anyTouched = anyTouched || ctrTouched[i]
+						c.Op("%s container %s -> %s", tr, ct.name, c14Res(ctrGot[i]))
+					}
+					c.Evals(1 + len(p.ctrs))
+
+					// ---- run: the six single-value parts, each on a fresh context. The CRI/NRI hooks call the
+					// combined functions, the cgroup reconciler registers the parts one per cgroup file: both
+					// inject, so wherever the statement fixes the values (below) the parts must give the same.
+					partsDiffer := ""
+					{
+						var merged protocol.Resources
+						a, b, d := c14PodCtx(tname, pod), c14PodCtx(tname, pod), c14PodCtx(tname, pod)
+						e1, e2, e3 := pl.SetPodCPUShares(a), pl.SetPodCFSQuota(b), pl.SetPodMemoryLimit(d)
 						if e1 != nil || e2 != nil || e3 != nil {
 							c.Count("hook_returned_error", 1)
 						}
-						m.CPUShares, m.CFSQuota, m.MemoryLimit = a.Response.Resources.CPUShares, b.Response.Resources.CFSQuota, d.Response.Resources.MemoryLimit
-						if !reflect.DeepEqual(m, ctrGot[i]) && partsDiffer == "" {
-							partsDiffer = fmt.Sprintf("container %s parts give {%s}, SetContainerResources gives {%s}", ct.name, c14Res(m), c14Res(ctrGot[i]))
+						if a.Response.Resources.CFSQuota != nil || a.Response.Resources.MemoryLimit != nil || b.Response.Resources.CPUShares != nil ||
+							b.Response.Resources.MemoryLimit != nil || d.Response.Resources.CPUShares != nil || d.Response.Resources.CFSQuota != nil {
+							c.Count("parts_set_foreign_field", 1) // not in the statement
+						}
+						merged.CPUShares, merged.CFSQuota, merged.MemoryLimit = a.Response.Resources.CPUShares, b.Response.Resources.CFSQuota, d.Response.Resources.MemoryLimit
+						c.Op("%s pod parts -> %s", tr, c14Res(merged))
+						if !reflect.DeepEqual(merged, podGot) {
+							partsDiffer = fmt.Sprintf("pod parts give {%s}, SetPodResources gives {%s}", c14Res(merged), c14Res(podGot))
+						}
+						for i, ct := range p.ctrs {
+							var m protocol.Resources
+							a, b, d := c14CtrCtx(tname, pod, ct.name), c14CtrCtx(tname, pod, ct.name), c14CtrCtx(tname, pod, ct.name)
+							e1, e2, e3 := pl.SetContainerCPUShares(a), pl.SetContainerCFSQuota(b), pl.SetContainerMemoryLimit(d)
+							if e1 != nil || e2 != nil || e3 != nil {
+								c.Count("hook_returned_error", 1)
+							}
+							m.CPUShares, m.CFSQuota, m.MemoryLimit = a.Response.Resources.CPUShares, b.Response.Resources.CFSQuota, d.Response.Resources.MemoryLimit
+							if !reflect.DeepEqual(m, ctrGot[i]) && partsDiffer == "" {
+								partsDiffer = fmt.Sprintf("container %s parts give {%s}, SetContainerResources gives {%s}", ct.name, c14Res(m), c14Res(ctrGot[i]))
+							}
 						}
 					}
-				}
-				checkParts := func() {
-					if partsDiffer != "" {
-						c.Fail("C14/parts/differ-from-combined", "%s: %s", tr, partsDiffer)
+					checkParts := func() {
+						if partsDiffer != "" {
+							c.Fail("C14/parts/differ-from-combined", "%s: %s", tr, partsDiffer)
+						}
+						c.Count("parts_vs_combined_checks", 1+len(p.ctrs))
 					}
-					c.Count("parts_vs_combined_checks", 1+len(p.ctrs))
-				}
 
-				// ---- decide what the statement demands for this pod
-				switch {
-				case !labelBE && !annoOnly:
-					// not best-effort: left untouched - no response field at all, at either level
-					if podTouched {
-						c.Fail("C14/non-be/pod-touched", "%s: pod marked %s is not best-effort but got %s", tr, p.marking, c14Res(podGot))
-					}
-					for i, ct := range p.ctrs {
-						if ctrTouched[i] {
-							c.Fail("C14/non-be/container-touched", "%s: container %s of a pod marked %s (not best-effort) got %s", tr, ct.name, p.marking, c14Res(ctrGot[i]))
+					// ---- decide what the statement demands for this pod
+					switch {
+					case !labelBE && !annoOnly:
+						// not best-effort: left untouched - no response field at all, at either level
+						if podTouched {
+							c.Fail("C14/non-be/pod-touched", "%s: pod marked %s is not best-effort but got %s", tr, p.marking, c14Res(podGot))
 						}
+						for i, ct := range p.ctrs {
+							if ctrTouched[i] {
+								c.Fail("C14/non-be/container-touched", "%s: container %s of a pod marked %s (not best-effort) got %s", tr, ct.name, p.marking, c14Res(ctrGot[i]))
+							}
+						}
+						c.Count("non_be_untouched_checks", 1+len(p.ctrs))
+						checkParts()
+						continue
+					case annoOnly && !anyTouched:
+						// The pinned tree defines no annotation form of the QoS class: GetQoSClassByAttrs
+						// receives the annotations ("old format adaption") and ignores them. Not a verdict
+						// either way; if such a pod IS treated as best-effort, it must get the right values.
+						c.Count("annotation_only_marking_left_untouched", 1)
+						continue
+					case !visible:
+						// best-effort but the transport shows no batch spec (nothing declared, or the
+						// annotation is absent on the CRI/NRI path): the statement is about pods "using
+						// reclaimed resources" whose declared amounts the hook can see; the code documents
+						// "do nothing and keep the original cgroup configs". Counted, not a verdict.
+						if anyTouched {
+							c.Count("be_without_visible_spec_touched", 1)
+						} else {
+							c.Count("be_without_visible_spec_left_untouched", 1)
+						}
+						if p.anyDeclared() {
+							c.Count("be_declared_but_annotation_absent_on_cri_path", 1)
+						}
+						if partsDiffer != "" {
+							c.Count("parts_differ_in_unasserted_context", 1)
+						}
+						continue
 					}
-					c.Count("non_be_untouched_checks", 1+len(p.ctrs))
+					if annoOnly {
+						c.Count("annotation_only_marking_treated_as_be", 1)
+					}
+					c.Count("be_contexts_with_visible_spec", 1+len(p.ctrs))
 					checkParts()
-					continue
-				case annoOnly && !anyTouched:
-					// The pinned tree defines no annotation form of the QoS class: GetQoSClassByAttrs
-					// receives the annotations ("old format adaption") and ignores them. Not a verdict
-					// either way; if such a pod IS treated as best-effort, it must get the right values.
-					c.Count("annotation_only_marking_left_untouched", 1)
-					continue
-				case !visible:
-					// best-effort but the transport shows no batch spec (nothing declared, or the
-					// annotation is absent on the CRI/NRI path): the statement is about pods "using
-					// reclaimed resources" whose declared amounts the hook can see; the code documents
-					// "do nothing and keep the original cgroup configs". Counted, not a verdict.
-					if anyTouched {
-						c.Count("be_without_visible_spec_touched", 1)
-					} else {
-						c.Count("be_without_visible_spec_left_untouched", 1)
-					}
-					if p.anyDeclared() {
-						c.Count("be_declared_but_annotation_absent_on_cri_path", 1)
-					}
-					if partsDiffer != "" {
-						c.Count("parts_differ_in_unasserted_context", 1)
-					}
-					continue
-				}
-				if annoOnly {
-					c.Count("annotation_only_marking_treated_as_be", 1)
-				}
-				c.Count("be_contexts_with_visible_spec", 1+len(p.ctrs))
-				checkParts()
 
-				// ---- values
-				where := fmt.Sprintf("%s/pod", tr)
-				podFl := c14CheckValues(c, "pod", where, podGot, wantPod, cfg)
-				anyKnown := podFl.quotaKnown
-				for i, ct := range p.ctrs {
-					where := fmt.Sprintf("%s/container %s", tr, ct)
-					if ct.bare() {
-						// omitted from the spec: the hook has nothing to convert. Untouched = the kubelet's
-						// values for a container without limits (rule 2) = unlimited, which is what the
-						// statement gives for undeclared amounts; explicit injection of those values is
-						// equally fine.
+					// ---- values
+					where := fmt.Sprintf("%s/pod", tr)
+					podFl := c14CheckValues(c, "pod", where, podGot, wantPod, cfg)
+					anyKnown := podFl.quotaKnown
+					for i, ct := range p.ctrs {
+						where := fmt.Sprintf("%s/container %s", tr, ct)
+						if ct.bare() {
+							// omitted from the spec: the hook has nothing to convert. Untouched = the kubelet's
+							// values for a container without limits (rule 2) = unlimited, which is what the
+							// statement gives for undeclared amounts; explicit injection of those values is
+							// equally fine.
+							g := ctrGot[i]
+							if !ctrTouched[i] {
+								c.Count("bare_container_left_untouched", 1)
+							} else if (g.CPUShares != nil && *g.CPUShares != c14MinShares) || (g.CFSQuota != nil && *g.CFSQuota != c14Unlimited) ||
+								(g.MemoryLimit != nil && *g.MemoryLimit != c14Unlimited) {
+								c.Fail("C14/container/limited-although-nothing-declared", "%s: declares no batch resource but got %s", where, c14Res(g))
+							} else {
+								c.Count("bare_container_injected_unlimited", 1)
+							}
+							continue
+						}
+						fl := c14CheckValues(c, "container", where, ctrGot[i], wantCtr[i], cfg)
+						anyKnown = anyKnown || fl.quotaKnown
+					}
+
+					// ---- relations on the OBSERVED values
+					sumQ, sumM, sumExcess := int64(0), int64(0), int64(0)
+					allQ, allM, nResp := true, true, 0
+					for i, ct := range p.ctrs {
+						if ct.bare() && !ctrTouched[i] {
+							// effective value: unlimited. pod >= unlimited is the narrow pod signature above.
+							allQ, allM = false, false
+							c.Count("relations_skipped_bare_container", 1)
+							continue
+						}
 						g := ctrGot[i]
-						if !ctrTouched[i] {
-							c.Count("bare_container_left_untouched", 1)
-						} else if (g.CPUShares != nil && *g.CPUShares != c14MinShares) || (g.CFSQuota != nil && *g.CFSQuota != c14Unlimited) ||
-							(g.MemoryLimit != nil && *g.MemoryLimit != c14Unlimited) {
-							c.Fail("C14/container/limited-although-nothing-declared", "%s: declares no batch resource but got %s", where, c14Res(g))
+						if g.CFSQuota == nil || g.MemoryLimit == nil {
+							allQ, allM = false, false
+							continue
+						}
+						nResp++
+						if !c14GE(*podGot.CFSQuota, *g.CFSQuota) {
+							c.Fail("C14/relation/pod-cfs-quota-tighter-than-container", "%s: pod cfs quota %d < container %s cfs quota %d", tr, *podGot.CFSQuota, ct, *g.CFSQuota)
+						}
+						if !c14GE(*podGot.MemoryLimit, *g.MemoryLimit) {
+							c.Fail("C14/relation/pod-memory-tighter-than-container", "%s: pod memory limit %d < container %s memory limit %d", tr, *podGot.MemoryLimit, ct, *g.MemoryLimit)
+						}
+						c.Count("relations_pod_ge_container", 2)
+						if *g.CFSQuota == c14Unlimited {
+							allQ = false
 						} else {
-							c.Count("bare_container_injected_unlimited", 1)
+							sumQ += *g.CFSQuota
+							sumExcess += wantCtr[i].quota.excess
 						}
-						continue
-					}
-					fl := c14CheckValues(c, "container", where, ctrGot[i], wantCtr[i], cfg)
-					anyKnown = anyKnown || fl.quotaKnown
-				}
-
-				// ---- relations on the OBSERVED values
-				sumQ, sumM, sumExcess := int64(0), int64(0), int64(0)
-				allQ, allM, nResp := true, true, 0
-				for i, ct := range p.ctrs {
-					if ct.bare() && !ctrTouched[i] {
-						// effective value: unlimited. pod >= unlimited is the narrow pod signature above.
-						allQ, allM = false, false
-						c.Count("relations_skipped_bare_container", 1)
-						continue
-					}
-					g := ctrGot[i]
-					if g.CFSQuota == nil || g.MemoryLimit == nil {
-						allQ, allM = false, false
-						continue
-					}
-					nResp++
-					if !c14GE(*podGot.CFSQuota, *g.CFSQuota) {
-						c.Fail("C14/relation/pod-cfs-quota-tighter-than-container", "%s: pod cfs quota %d < container %s cfs quota %d", tr, *podGot.CFSQuota, ct, *g.CFSQuota)
-					}
-					if !c14GE(*podGot.MemoryLimit, *g.MemoryLimit) {
-						c.Fail("C14/relation/pod-memory-tighter-than-container", "%s: pod memory limit %d < container %s memory limit %d", tr, *podGot.MemoryLimit, ct, *g.MemoryLimit)
-					}
-					c.Count("relations_pod_ge_container", 2)
-					if *g.CFSQuota == c14Unlimited {
-						allQ = false
-					} else {
-						sumQ += *g.CFSQuota
-						sumExcess += wantCtr[i].quota.excess
-					}
-					if *g.MemoryLimit == c14Unlimited {
-						allM = false
-					} else {
-						sumM += *g.MemoryLimit
-					}
-				}
-				if allQ && nResp == len(p.ctrs) && !anyKnown {
-					pq := *podGot.CFSQuota
-					if pq == c14Unlimited {
-						if cfg.cfsOn {
-							c.Fail("C14/relation/pod-unlimited-although-all-containers-limited", "%s: pod cfs quota -1, every container has a finite quota (sum %d)", tr, sumQ)
-						}
-					} else {
-						// equal up to the conversion's rounding (ceil of each container vs ceil of the sum:
-						// at most n-1) and the minimum clamps (what they added to the containers)
-						if pq > sumQ {
-							c.Fail("C14/relation/pod-cfs-quota-above-sum", "%s: pod cfs quota %d > sum of container quotas %d", tr, pq, sumQ)
-						}
-						if lo := sumQ - int64(nResp-1) - sumExcess; pq < lo {
-							c.Fail("C14/relation/pod-cfs-quota-below-sum", "%s: pod cfs quota %d < sum of container quotas %d - rounding %d - clamp excess %d", tr, pq, sumQ, nResp-1, sumExcess)
-						}
-						c.Count("relations_pod_vs_sum_quota", 1)
-						if pq < sumQ {
-							c.Count("pod_quota_strictly_below_sum_rounding_or_clamp", 1)
+						if *g.MemoryLimit == c14Unlimited {
+							allM = false
 						} else {
-							c.Count("pod_quota_equals_sum", 1)
+							sumM += *g.MemoryLimit
 						}
 					}
-				}
-				if allM && nResp == len(p.ctrs) && !podFl.memKnown {
-					if pm := *podGot.MemoryLimit; pm != sumM {
-						c.Fail("C14/relation/pod-memory-not-sum", "%s: pod memory limit %d, sum of container limits %d", tr, pm, sumM)
+					if allQ && nResp == len(p.ctrs) && !anyKnown {
+						pq := *podGot.CFSQuota
+						if pq == c14Unlimited {
+							if cfg.cfsOn {
+								c.Fail("C14/relation/pod-unlimited-although-all-containers-limited", "%s: pod cfs quota -1, every container has a finite quota (sum %d)", tr, sumQ)
+							}
+						} else {
+							// equal up to the conversion's rounding (ceil of each container vs ceil of the sum:
+							// at most n-1) and the minimum clamps (what they added to the containers)
+							if pq > sumQ {
+								c.Fail("C14/relation/pod-cfs-quota-above-sum", "%s: pod cfs quota %d > sum of container quotas %d", tr, pq, sumQ)
+							}
+							if lo := sumQ - int64(nResp-1) - sumExcess; pq < lo {
+								c.Fail("C14/relation/pod-cfs-quota-below-sum", "%s: pod cfs quota %d < sum of container quotas %d - rounding %d - clamp excess %d", tr, pq, sumQ, nResp-1, sumExcess)
+							}
+							c.Count("relations_pod_vs_sum_quota", 1)
+							if pq < sumQ {
+								c.Count("pod_quota_strictly_below_sum_rounding_or_clamp", 1)
+							} else {
+								c.Count("pod_quota_equals_sum", 1)
+							}
+						}
 					}
-					c.Count("relations_pod_vs_sum_memory", 1)
-				}
+					if allM && nResp == len(p.ctrs) && !podFl.memKnown {
+						if pm := *podGot.MemoryLimit; pm != sumM {
+							c.Fail("C14/relation/pod-memory-not-sum", "%s: pod memory limit %d, sum of container limits %d", tr, pm, sumM)
+						}
+						c.Count("relations_pod_vs_sum_memory", 1)
+					}
 
-				// ---- evidence
-				if wantPod.quota.minClamp {
-					c.Count("quota_min_clamp_hit_pod", 1)
-				}
-				if wantPod.quota.belowMin {
-					c.Count("quota_below_minimum_after_ratio_pod", 1)
-				}
-				if wantPod.sharesMin {
-					c.Count("shares_min_clamp_hit", 1)
-				}
-				if wantPod.sharesMax {
-					c.Count("shares_max_clamp_hit", 1)
-				}
-				if wantPod.quota.ratioRounded {
-					c.Count("ratio_rounding_exercised", 1)
-				}
-				if wantPod.quota.val == c14Unlimited && cfg.cfsOn && len(p.ctrs) > 1 {
-					c.Count("pod_unlimited_by_propagation", 1)
-				}
-				for i := range p.ctrs {
-					w := wantCtr[i]
-					if w.quota.minClamp {
-						c.Count("quota_min_clamp_hit_container", 1)
+					// ---- evidence (for the final state only, so that the counters stay per pod x transport)
+					if !final {
+						c.Count("history_intermediate_contexts_checked", 1+len(p.ctrs))
+						continue
 					}
-					if w.quota.belowMin {
-						c.Count("quota_below_minimum_after_ratio_container", 1)
+					if wantPod.quota.minClamp {
+						c.Count("quota_min_clamp_hit_pod", 1)
 					}
-					if w.sharesMin {
+					if wantPod.quota.belowMin {
+						c.Count("quota_below_minimum_after_ratio_pod", 1)
+					}
+					if wantPod.sharesMin {
 						c.Count("shares_min_clamp_hit", 1)
 					}
-					if w.sharesMax {
+					if wantPod.sharesMax {
 						c.Count("shares_max_clamp_hit", 1)
 					}
-					if w.quota.ratioRounded {
+					if wantPod.quota.ratioRounded {
 						c.Count("ratio_rounding_exercised", 1)
 					}
-					if w.quota.ratioApplied {
-						c.Count("ratio_applied", 1)
+					if wantPod.quota.val == c14Unlimited && cfg.cfsOn && len(p.ctrs) > 1 {
+						c.Count("pod_unlimited_by_propagation", 1)
 					}
-					if cfg.cfsOn && w.quota.val != c14Unlimited && cfg.ratio > 0 && cfg.ratio <= 1 {
-						c.Count("ratio_not_above_1_ignored", 1)
+					for i := range p.ctrs {
+						w := wantCtr[i]
+						if w.quota.minClamp {
+							c.Count("quota_min_clamp_hit_container", 1)
+						}
+						if w.quota.belowMin {
+							c.Count("quota_below_minimum_after_ratio_container", 1)
+						}
+						if w.sharesMin {
+							c.Count("shares_min_clamp_hit", 1)
+						}
+						if w.sharesMax {
+							c.Count("shares_max_clamp_hit", 1)
+						}
+						if w.quota.ratioRounded {
+							c.Count("ratio_rounding_exercised", 1)
+						}
+						if w.quota.ratioApplied {
+							c.Count("ratio_applied", 1)
+						}
+						if cfg.cfsOn && w.quota.val != c14Unlimited && cfg.ratio > 0 && cfg.ratio <= 1 {
+							c.Count("ratio_not_above_1_ignored", 1)
+						}
 					}
-				}
-				if labelBE && len(p.ctrs) >= 2 {
-					hit := wantPod.quota.minClamp || wantPod.quota.ratioRounded || wantPod.sharesMin || wantPod.sharesMax ||
-						(cfg.cfsOn && wantPod.quota.val == c14Unlimited) || wantPod.mem == c14Unlimited
-					for _, w := range wantCtr {
-						hit = hit || w.quota.minClamp || w.quota.ratioRounded || w.sharesMin || w.sharesMax
+					if labelBE && len(p.ctrs) >= 2 {
+						hit := wantPod.quota.minClamp || wantPod.quota.ratioRounded || wantPod.sharesMin || wantPod.sharesMax ||
+							(cfg.cfsOn && wantPod.quota.val == c14Unlimited) || wantPod.mem == c14Unlimited
+						for _, w := range wantCtr {
+							hit = hit || w.quota.minClamp || w.quota.ratioRounded || w.sharesMin || w.sharesMax
+						}
+						exercised = exercised || hit
 					}
-					exercised = exercised || hit
 				}
 			}
+
+			// ---- apply the rule updates (hooks in between in some histories), then the full check
+			cur := c14Cfg{ratio: -1, cfsOn: true, slo: "rule-never-set"} // newRule(): cfs quota on, no ratio
+			for i, st := range steps {
+				prevRatio, prevOn := cur.ratio, cur.cfsOn
+				hadSLO := cur.slo != "rule-never-set"
+				c14Apply(c, pl, st)
+				if st.meta {
+					if metaSeen := cur.metaSeen; metaSeen && history {
+						a, b := c14RatioClass(prevRatio), c14RatioClass(c14ParseRatio(c, st.val))
+						k := a + "_to_" + b
+						if a == b && a != "absent" {
+							if prevRatio == c14ParseRatio(c, st.val) {
+								k += "_unchanged"
+							} else {
+								k += "_changed"
+							}
+						}
+						c.Count("hist_ratio_"+k, 1)
+					}
+					cur.ratioStr, cur.ratio, cur.metaSeen = st.val, c14ParseRatio(c, st.val), true
+				} else {
+					on := c14CFSOn(st.val)
+					if hadSLO && history {
+						c.Count(fmt.Sprintf("hist_cfs_%s_to_%s", map[bool]string{true: "on", false: "off"}[prevOn], map[bool]string{true: "on", false: "off"}[on]), 1)
+					}
+					cur.slo, cur.cfsOn = st.val, on
+				}
+				if hooksBetween && i < len(steps)-1 {
+					runCheck(cur, []string{betweenTransport}, fmt.Sprintf("@after-update-%d", i+1), false)
+				}
+			}
+			if history {
+				c.Count("history_cases", 1)
+				if hooksBetween {
+					c.Count("history_cases_with_hooks_between_updates", 1)
+				}
+			}
+			if cur.ratio != cfg.ratio || cur.cfsOn != cfg.cfsOn {
+				c.Harness("harness bookkeeping: last applied state ratio=%v cfs=%v, oracle state ratio=%v cfs=%v", cur.ratio, cur.cfsOn, cfg.ratio, cfg.cfsOn)
+			}
+			runCheck(cfg, c14Transports, "", true)
 			if exercised {
 				c.NonTrivial()
 			}
